@@ -25,6 +25,14 @@ const Max = int64(-1) // the `max` keyword in ranges
 type WS struct {
 	Files []*File
 	Notes []string // deviations applied, in order (for messages and signatures)
+	// anchors into the base workspace, so that deviations find their targets after other
+	// deviations renamed or moved things
+	AM     *Msg
+	AInner *Msg
+	AME    *Enum
+	AF     [3]*Field
+	AX     *ExtBlock
+	AS     *Svc
 }
 
 type File struct {
@@ -341,8 +349,13 @@ func Base(syntax string) *WS {
 	if syntax != "proto3" {
 		main.Decls = append(main.Decls, &ExtBlock{Extendee: "D", Fields: []*Field{f(lab, "int32", "x1", 100)}})
 	}
-	main.Decls = append(main.Decls, &Svc{Name: "S", Methods: []*Method{{Name: "R", In: "M", Out: "D"}}})
-	return &WS{Files: []*File{pub, dep, main}}
+	svc := &Svc{Name: "S", Methods: []*Method{{Name: "R", In: "M", Out: "D"}}}
+	main.Decls = append(main.Decls, svc)
+	ws := &WS{Files: []*File{pub, dep, main}, AM: m, AS: svc, AX: main.Ext()}
+	ws.AF = [3]*Field{m.Body[0].(*Field), m.Body[1].(*Field), m.Body[2].(*Field)}
+	ws.AInner = m.Body[3].(*Msg)
+	ws.AME = m.Body[4].(*Enum)
+	return ws
 }
 
 // Main returns main.proto of a base-derived workspace and its message M.
